@@ -561,6 +561,10 @@ def signature(prog, k, st, o, kind):
     bad = [v for v in VIEWS if not st["s_" + v]]
     if bad == ["schema"] and any(_is_ticked(x) and x[1:2].isdigit() for x in o["schema"]):
         return "C10/leading-digit-name-schema-backticks"
+    if _ticked_plain_before(prog, k):
+        # `x` around a name that needs no quoting builds a QUOTED select item keyed '`x`': schema looks up 'x' (stale), and
+        # later bare references (withColumn / withColumnRenamed / drop / join keys) do not find the column
+        return "C10/backticked-plain-name-quoted-item"
     if m == "toDF":
         return "C10/toDF-names-not-recorded"
     if m in ("drop", "fillna", "dropna", "dropDuplicates"):
@@ -575,10 +579,6 @@ def signature(prog, k, st, o, kind):
         ks = [key(attr(a[2] if a[0] == "alias" else a[1])) for a in op[1]]
         if len(set(ks)) != len(ks):
             return "C10/select-same-column-twice"
-    if _ticked_plain_before(prog, k):
-        # `x` around a name that needs no quoting builds a QUOTED select item keyed '`x`': schema looks up 'x' (stale), and
-        # later bare references (withColumn / withColumnRenamed / drop) do not find the column
-        return "C10/backticked-plain-name-quoted-item"
     return f"C10/{m}:" + "+".join(bad)
 
 
@@ -611,6 +611,8 @@ def _ticked_plain_before(prog, k):
         refs = []
         if op[0] in ("select", "groupAgg"):
             refs = [a[1] for a in op[1]]
+        elif op[0] in ("drop", "dropDuplicates", "join"):
+            refs = list(op[1] if op[0] != "join" else op[2])
         elif op[0] in ("where", "whereItem", "withColumnRenamed"):
             refs = [op[1]]
         elif op[0] in ("withColumn", "withColumnItem"):
